@@ -116,6 +116,37 @@ static void part_fp(const std::vector<unsigned>& ns, unsigned nseeds, unsigned s
 }
 
 
+// part=slow : the stochastic model with the tiny damping decrements of runs with thousands of steps per synchrotron period and a long damping time
+//             (the program's defaults give 4e-6): an equilibrium ensemble keeps its mean and width over millions of steps.  Thorough tier only.
+static void part_slow() {
+    const unsigned n = 64, NP = 256;
+    for (int ie = 0; ie < 3; ie++) for (int sy = 0; sy < 2; sy++) {
+        const double e1 = ie == 0 ? 1.5e-7 : ie == 1 ? 4e-7 : 4.4e-6; const unsigned T = ie == 2 ? 1000000 : 3000000;
+        std::string kase = mcx::Desc()("part", "slow")("n", n).f("e1", e1)("shifty", sy)("steps", T).str();
+        if (!R.mine(kase)) continue;
+        if (R.out_of_time()) { R.not_completed = kase; return; }
+        set_size(n, 1);
+        auto in = mkps_shift(n, 12, 0, sy * 3, {1.f}), out = mkps_shift(n, 12, 0, sy * 3, {1.f});
+        FokkerPlanckMap m(in, out, n, n, FokkerPlanckMap::FPType::full, FokkerPlanckMap::FPTracking::stochastic, e1, FokkerPlanckMap::DerivationType::cubic, nullptr);
+        m._prng.seed(4242 + ie); m._normdist.reset();
+        const double zb = in->getAxis(1)->zerobin(), sig = 1.0 / in->getDelta(1);
+        std::mt19937 g(777 + sy); std::normal_distribution<float> nd(0.f, 1.f);
+        std::vector<PhaseSpace::Position> en(NP); for (auto& p : en) p = {n / 2.f, (float)(zb + sig * nd(g))};
+        double mu0 = 0, v0 = 0; for (auto& p : en) mu0 += p.y; mu0 /= NP; for (auto& p : en) v0 += (p.y - mu0) * (p.y - mu0); v0 /= NP;
+        for (unsigned k = 0; k < T; k++) m.applyToAll(en);
+        double mu = 0, var = 0; bool inside = true; for (auto& p : en) { mu += p.y; if (!(p.y >= 0 && p.y <= n - 1)) inside = false; } mu /= NP; for (auto& p : en) var += (p.y - mu) * (p.y - mu); var /= NP;
+        R.eval(kase, mcx::fnv(en.data(), sizeof(PhaseSpace::Position) * en.size(), mcx::fnvs(kase)), false);
+        const double shift = (mu - zb) / sig, ratio = std::sqrt(var) / sig;
+        R.maxnum("worst_slow_ensemble_shift_in_sigma", std::fabs(shift)); R.maxnum("worst_slow_ensemble_width_deviation", std::fabs(ratio - 1));
+        // 256 particles: the mean is known to 0.06 sigma, the width to 4.4 % - bounds at four standard errors
+        if (!inside || !(std::fabs(shift) <= 0.25) || !(ratio >= 0.8 && ratio <= 1.25)) {
+            char d[240]; snprintf(d, 240, "after %u steps (%.2f damping times) the ensemble mean is %.3f sigma off the zero-energy row (start %.3f) and its width %.3f of the equilibrium width (start %.3f)", T, T * e1, shift, (mu0 - zb) / sig, ratio, std::sqrt(v0) / sig);
+            R.violate("C15/FokkerPlanck/track=3/slow-damping/ensemble-not-stationary", kase, d);
+        }
+    }
+    R.bound_done("slow: stochastic model, decrements 1.5e-7, 4e-7, 4.4e-6 x 2 zero-bin shifts, ensemble of 256 over 1-3 million steps");
+}
+
 // part=chain : the real map classes over several consecutive steps (static and dynamic RF kick with modulation / noise, drift with
 //              higher orders): an impulse of charge and a particle start on the same lattice point; after every apply()+applyTo()
 //              the centroid of the charge (which stays in its row) must coincide with the particle
@@ -186,8 +217,9 @@ int main(int argc, char** argv) {
              "distinct = FNV of case + resulting coordinates; trivial = zero offsets / tracking model none";
     R.sample_every = 20000;
     const bool T = true /* the wide lattices run in both tiers */; const bool D = R.thorough(); (void)D;
-    part_kick(T ? std::vector<unsigned>{12, 16, 17, 24} : std::vector<unsigned>{12, 13});
+    part_kick(D ? std::vector<unsigned>{12, 16, 17, 24, 32, 33} : std::vector<unsigned>{12, 16, 17, 24});
     part_fp(T ? std::vector<unsigned>{12, 16, 17, 32, 33, 48} : std::vector<unsigned>{12, 13, 32}, T ? 32 : 4, T ? 400 : 200);
-    part_chain(T ? std::vector<unsigned>{16, 17, 32} : std::vector<unsigned>{16, 17}, T ? 12 : 6);
+    part_chain(D ? std::vector<unsigned>{16, 17, 32, 33, 64} : std::vector<unsigned>{16, 17, 32}, D ? 24 : 12);
+    if (D) part_slow();
     return R.finish();
 }
